@@ -12,8 +12,9 @@ def run(ctx, res):
         "to the ready list, to the pending list, recursion executed, evaluator consulted) is compared with the spec: recursion "
         "into children on every element path, ready children kept (as node children or spliced), ready push <=> not skip & "
         "registered & verdict & built & non-empty.  SQ/DT: first-available strategy selection with a constantly available "
-        "fallback; evaluator registry wiring; marker extents are exactly the tag token boundaries.  R7 (ordering enumeration) a child marker absorbed into an unwrap head/tail is covered entirely by the widened marker.  Decides the totality of "
-        "collection, not the cursor arithmetic of merge_markers.")
+        "fallback; evaluator registry wiring; marker extents are exactly the tag token boundaries.  R7 (ordering enumeration) a child marker absorbed into an unwrap head/tail is covered entirely by the widened marker.  R8 (DT) on every path through the fold step of merge_markers the element's own marker reaches the marker list: "
+        "once with status None for a plain element; for an unwrapped element either head and tail (with the kept child markers between them) "
+        "or one range from the head's start to the tail's end.  Decides the totality of collection, not the cursor arithmetic of merge_markers.")
     res.trusted += ["Iterator::find returns the first match; fold visits every element of contents.iter()",
                     "driver fact extraction and the abstract interpreter (unsupported constructs fail closed)"]
     rows, bad = common.element_rows(ctx, res, "C03.R1-3", lambda r: True,
@@ -24,6 +25,84 @@ def run(ctx, res):
     common.registry_wiring(ctx, res, "C03.R5")
     common.marker_extents(ctx, res, "C03.R6", parts=("range", "unwrap"))
     intervals.absorb_rule(ctx, res, "C03.R7")
+    every_marker_emitted(ctx, res, "C03.R8")
     info = common.element_table(ctx)
     for o in info["outs"][:5]:
         res.samples.append({"decisions": {k: str(v) for k, v in o["decisions"].items()}, "observation": repr(common.observe_element(o))[:400]})
+
+
+def every_marker_emitted(ctx, res, rule):
+    """merge_markers: whatever the child markers are, the element's own marker(s) are appended to the list on every path."""
+    from .. import absint as A
+    from ..report import Finding
+    from . import fshort
+    P = ctx.lib
+    b = P.fn("Remover::merge_markers")
+    fn = fshort(b)
+    loc = T.loc(b["tree"])
+    folds = [n for n in T.nodes(b["tree"], "mcall") if n["name"] == "fold" and len(n["args"]) == 2 and T.peel(n["args"][1]).get("k") == "closure"]
+    fors = [n for n in T.nodes(b["tree"], "for")]
+    if len(folds) == 1 and not fors:
+        clo = T.peel(folds[0]["args"][1])
+        body, accp, itemp = clo["body"], clo["params"][0]["pat"], clo["params"][1]["pat"]
+    elif len(fors) == 1 and not folds:
+        body, accp, itemp = fors[0]["body"], None, fors[0]["pat"]
+    else:
+        res.cannot(rule, fn, "traversal", "the traversal of the range trees (fold or for) was not found", loc)
+        return
+    I = A.Interp(P)
+    I.lazy_locals = True
+
+    def run_(J):
+        env = {}
+        if accp is not None:
+            J.match_pat(accp, A.Sym("acc"), env)
+        J.match_pat(itemp, A.Sym("tree"), env)
+        return J.ev(body, env)
+    try:
+        outs = I.explore(run_)
+    except A.Cannot as e:
+        res.cannot(rule, fn, "step", str(e), loc)
+        return
+    HEAD, TAIL = "tree.range.0", "tree.range.1.some"
+    n_paths = 0
+    bad = {}
+    for o in outs:
+        if o["exit"] == "panic":
+            continue
+        n_paths += 1
+        paired = o["decisions"].get("is_some(tree.range.1)")
+        ev = [(e[0], e[2]) for e in o["effects"] if e[0] in ("push", "extend", "insert", "append") and e[1] not in ("v",)]
+        pushes = [(k, v) for k, v in ev if k == "push"]
+        shown = [(k, A.show(v)) for k, v in ev]
+
+        def first(v):
+            return A.show(v.items[0]) if isinstance(v, A.Tuple) and len(v.items) == 2 else ""
+
+        def second(v):
+            return A.show(v.items[1]) if isinstance(v, A.Tuple) and len(v.items) == 2 else ""
+        why = None
+        if accp is not None and A.show(o["value"]) != "acc":
+            why = "the step does not hand the marker list on"
+        elif paired is False:
+            if not (len(ev) == 1 and len(pushes) == 1 and HEAD in first(pushes[0][1]) and second(pushes[0][1]) == "None"):
+                why = "a plain element's marker is not appended exactly once with no pair (appended: %s)" % [s_[:80] for _, s_ in shown]
+        elif paired is True:
+            f = [first(v) for _, v in pushes]
+            fused = len(ev) == 1 and len(pushes) == 1 and ".." in f[0] and HEAD in f[0].split("..")[0] and f[0].split("..")[0].endswith(".start") \
+                and TAIL in f[0].split("..")[-1] and f[0].endswith(".end") and second(pushes[0][1]) == "None"
+            split = len(pushes) == 2 and len(ev) == 3 and ev[0][0] == "push" and ev[1][0] == "extend" and ev[2][0] == "push" \
+                and HEAD in f[0] and TAIL not in f[0] and TAIL in f[1] and HEAD not in f[1] and "merge_markers(tree.children)" in shown[1][1]
+            if not (fused or split):
+                why = "an unwrapped element contributes neither (head, kept children, tail) nor one range from the head's start to the tail's end (appended: %s)" % [s_[:80] for _, s_ in shown]
+        else:
+            why = "the step does not distinguish plain and unwrapped elements by `tree.range.1`"
+        if why:
+            bad.setdefault(why, 0)
+            bad[why] += 1
+    res.floor(rule, "paths through the fold step of merge_markers", n_paths, 3)
+    if bad:
+        for why, k in bad.items():
+            res.add(Finding(rule, fn, "marker-emitted", "a ready element's marker can be lost while child markers are merged (%d path(s)): %s" % (k, why), loc=loc))
+    else:
+        res.holds(rule, fn, "marker-emitted", "%d paths: own marker appended on each" % n_paths)
